@@ -43,7 +43,6 @@ Print Assumptions C07_existing_named.
 
 Theorem C07_existing_positional : forall f c k2 hint idx v,
     plain_field f c -> is_intoish (c_kind c) = true -> is_into_existing k2 = true ->
-    ~ f03b_cell f (set_kind c k2) hint ->
     dest_named (fv_member f) hint = Some false -> place_positional f idx = Ok (MIndex idx) -> value_out f c = Ok v ->
     render_struct_line f c hint idx None = Ok (v ++ [comma]) /\
     render_struct_line f (set_kind c k2) hint idx None = Ok ([TIdent "other"; dot] ++ path_of f (MIndex idx) ++ [P1 "="] ++ v ++ [semi]).
